@@ -40,6 +40,9 @@ def run(ctx):
     for i in range(n):
         g = Gen(random.Random(rng.randrange(1 << 30)), typed=(i % 3 != 0), gnu=(i % 2 == 0), kr=(i % 5 == 0), maxdepth=3 + i % 3)
         cases.append((2 if i % 4 else 3, "a", g.program()))
+        if i % 5 == 0:
+            # under random parse options as well (whatever parses without diagnostics under them must come back token for token)
+            cases.append(("%d,1,0,%d,%s" % (rng.randrange(4), rng.choice([2, 3]), "".join(rng.choice("01d") for _ in range(31))), "a", cases[-1][2]))
     # every ambiguity form in every expression / statement slot with every way of declaring the names (C09's generator; valid programs whose
     # default-mode tree must be ambiguity-free): an ambiguity that is "resolved" without its parent being updated is unparsed twice or lost
     from gen.ambiggen import AmbigGen
